@@ -139,6 +139,7 @@ func init() {
 		sys:          PyPI,
 		userNumCount: 3,
 		isPrerelease: false,
+		synthetic:    true,
 		str:          "0.0.0dev0",
 	}
 	pypiMinVersion.num = pypiMinVersion.buf[:3]
